@@ -296,7 +296,9 @@ class XlsObject:
         assert isinstance(origins, dict)
         if range_key is None:
             # return description of all the source cells
-            cells_coords = sorted(origins.values())
+            # (origins are stored in order of columns in the sheet. Do not sort
+            # the coordinates as strings: "AA1" would come before "Z1")
+            cells_coords = list(origins.values())
             if len(cells_coords) == 0:
                 cells_range_descr = "<skipped column>"
             elif len(cells_coords) == 1:
